@@ -4,6 +4,7 @@ Shape: differential monitor: every node of a random expression DAG is built twic
 closure over the same children; reads of .rx.value (interleaved with input updates, because reads populate caches) are
 compared with direct evaluation (value by type-aware equality, exceptions by type), and .rx.watch callbacks are compared
 with the evaluator after every update."""
+import collections
 import math
 import operator
 
@@ -17,7 +18,7 @@ RULE = ('deterministic part (exhaustive): every binary operator in the three for
         'non-trivial = the DAG has a shared sub-expression or the history re-reads a node after an update; distinct by (node '
         'kind multiset, history shape)')
 PARAMS = {
-    'quick': dict(cases=500, shards=8, maxnodes=22, maxsteps=30),
+    'quick': dict(cases=620, shards=8, maxnodes=22, maxsteps=30),
     'thorough': dict(cases=25000, shards=16, maxnodes=30, maxsteps=40),
 }
 EXHAUSTIVE = {'quick': True, 'thorough': True}
@@ -30,7 +31,7 @@ ASSUMPTIONS = [
     'the exception is recorded as a diagnostic only',
     'stateful helpers (buffer, when, updating) are outside the statement and not generated',
 ]
-REQUIRED = {'late_built_nodes': 300, 'reads': 5000, 'reads_after_update': 2000, 'reads_raising': 200, 'watch_checks': 500, 'operator_forms': 60, 'break_and_repair_plans': 100, 'reads_interrupted': 40}
+REQUIRED = {'late_built_nodes': 300, 'reads': 5000, 'reads_after_update': 2000, 'reads_raising': 200, 'watch_checks': 500, 'operator_forms': 60, 'break_and_repair_plans': 100, 'reads_interrupted': 40, 'reads_with_two_distinct_argument_faults': 40}
 
 _st = {}
 
@@ -264,7 +265,13 @@ def build(rng, P, rep, table_mode=False):
         elif k < 0.66:
             # inputs handed over as keyword arguments
             c = rng.randrange(3)
-            if c == 0:
+            if c == 0 and rng.random() < 0.5:
+                # a positional and a keyword argument that are both expressions: evaluated in that order, as Python does
+                x, y, z = rng.choice(nodes), rng.choice(nodes), rng.choice(nodes)
+                g3 = lambda v, u, w=None: (v, u, w)    # noqa: E731
+                add(lambda: x.rx.rx.pipe(g3, y.rx, w=z.rx), lambda: (x.ev(), y.ev(), z.ev()), f'pipe({x.desc},{y.desc},w={z.desc})', 'any',
+                    'pipe:pos+kwarg', (x, y, z))
+            elif c == 0:
                 x, y = rng.choice(nodes), rng.choice(nodes)
                 g = lambda v, w=None, extra=0: (v, w, extra)    # noqa: E731
                 add(lambda: x.rx.rx.pipe(g, extra=1, w=y.rx), lambda: (x.ev(), y.ev(), 1), f'pipe({x.desc},w={y.desc})', 'any', 'pipe:kwarg', (x, y))
@@ -369,6 +376,17 @@ def build(rng, P, rep, table_mode=False):
     else:
         for _ in range(rng.randint(8, P['maxnodes'])):
             grow()
+        if rng.random() < 0.5:
+            # a function applied to the pipeline input, a positional and a keyword argument, the last two being expressions
+            # that fail in different ways when their inputs go bad (an index out of range, a missing key)
+            pl_, dn_ = nodes[5], dnode
+            y_ = add(lambda: pl_.rx[0], lambda: pl_.ev()[0], f'{pl_.desc}[0]', 'any', 'index:const', (pl_,))
+            z_ = add(lambda: dn_.rx['size'], lambda: dn_.ev()['size'], "D['size']", 'any', 'index:const', (dn_,))
+            if y_ is not None and z_ is not None:
+                x_ = nodes[0]
+                g3 = lambda v, u, w=None: (v, u, w)    # noqa: E731
+                add(lambda: x_.rx.rx.pipe(g3, y_.rx, w=z_.rx), lambda: (x_.ev(), y_.ev(), z_.ev()), f'pipe({x_.desc},{y_.desc},w={z_.desc})', 'any',
+                    'pipe:pos+kwarg', (x_, y_, z_))
     def grow_late():
         # derive a new expression from the existing (possibly already read and since invalidated) nodes
         before = len(nodes) + len(leaf_only)
@@ -378,7 +396,7 @@ def build(rng, P, rep, table_mode=False):
     return nodes + leaf_only, inputs, dropped[0], grow_late
 
 
-DICTV = [{'size': 5, 'b': 1}, {}, {'color': 'blue'}, {'size': 7}, None]
+DICTV = [{'size': 5, 'b': 1}, {}, {'color': 'blue'}, {'size': 7}, collections.OrderedDict([('size', 3), ('b', 2)]), None]
 SETV = [{1, 2}, set(), {2, 3, 4}, frozenset({1}), {3}]
 NUMV = [0, 1, 2, 3, -2, 5, 2.5, 7, 'x', None, [1, 2]]
 STRV = ['abca', '', 'aa', 'Zed', 5]
@@ -429,6 +447,10 @@ def run_case(idx, rng, P, rep):
     def read(n):
         got = outcome(lambda: n.rx.rx.value)
         exp = outcome(n.ev)
+        if n.kind == 'pipe:pos+kwarg':
+            oy, oz = outcome(n.children[1].ev), outcome(n.children[2].ev)
+            if oy[0] == 'exc' and oz[0] == 'exc' and oy[1] != oz[1] and outcome(n.children[0].ev)[0] == 'ok':
+                rep.count('reads_with_two_distinct_argument_faults')
         if n.ins & dirty:
             rep.count('reads_unjudged_after_raised_update')
             return True
@@ -446,7 +468,9 @@ def run_case(idx, rng, P, rep):
                 key = 'different-exception'
                 # two faults at once (the receiver lacks the method AND an argument expression raises): which one surfaces
                 # depends on the evaluation order of receiver and arguments, which the statement does not fix
-                if got[1] in subtree_exceptions(n):
+                # (not for functions applied to several expressions: pipeline input, positional, then keyword arguments are
+                #  evaluated in that order, as the arguments of a Python call are)
+                if got[1] in subtree_exceptions(n) and not n.kind.startswith('pipe'):
                     rep.count('reads_unjudged_two_faults')
                     return True
             else:
@@ -470,6 +494,22 @@ def run_case(idx, rng, P, rep):
                 plan = [('set', name, rng.choice(pool[8:] or pool[-1:])), ('read', n), ('set', name, pool[0]), ('read', n)]
                 rep.count('break_and_repair_plans')
         if not plan and not table_mode and rng.random() < 0.06:
+            # two inputs of one function application broken at once, read, repaired one by one
+            cands = [n for n in nodes if n.kind.startswith('pipe') and len(n.children) >= 2 and outcome(n.ev)[0] == 'ok']
+            if cands:
+                both = [n_ for n_ in cands if n_.kind == 'pipe:pos+kwarg']
+                n = rng.choice(both) if both and rng.random() < 0.8 else rng.choice(cands)
+                ch = [c_ for c_ in (n.children[1:] if n.kind == 'pipe:pos+kwarg' else n.children) if c_.ins]
+                if len(ch) >= 2:
+                    a_, b_ = rng.sample(ch, 2)
+                    na, nb = rng.choice(sorted(a_.ins)), rng.choice(sorted(b_.ins))
+                    if na != nb:
+                        pa, pb = POOLS[inputs[na][1]], POOLS[inputs[nb][1]]
+                        # (values are tried one after the other until the argument expression really fails)
+                        plan = [('break', na, a_, 0), ('break', nb, b_, 0), ('read', n),
+                                ('set', na, pa[0]), ('read', n), ('set', nb, pb[0]), ('read', n)]
+                        rep.count('double_break_plans')
+        if not plan and not table_mode and rng.random() < 0.06:
             # an evaluation interrupted from outside: change an input of an expression that runs a piped function, read it
             # (the function is interrupted), then read it again (nothing is wrong with inputs or function any more)
             cands = [n for n in nodes if n.kind == 'pipe' and n.ins and outcome(n.ev)[0] == 'ok']
@@ -479,6 +519,14 @@ def run_case(idx, rng, P, rep):
                 pool = POOLS[inputs[name][1]]
                 plan = [('set', name, rng.choice(pool[:8])), ('read-interrupted', n), ('read', n)]
                 rep.count('interrupted_read_plans')
+        if plan and plan[0][0] == 'break':
+            _, name_, child_, tried_ = plan[0]
+            pool_ = POOLS[inputs[name_][1]]
+            if outcome(child_.ev)[0] == 'exc' or tried_ >= len(pool_):
+                plan.pop(0)
+                continue
+            plan[0] = ('break', name_, child_, tried_ + 1)
+            plan.insert(0, ('set', name_, pool_[(1 + tried_) % len(pool_)]))
         if plan and plan[0][0] == 'read-interrupted':
             n = plan.pop(0)[1]
             hist.append(('read-interrupted', n.desc[:80]))
